@@ -873,7 +873,8 @@ enum Mode {
 fn setup(mode: Mode) -> Vec<Ev> {
     match mode {
         // (channel 1's return listener is registered twice: the second registration is the current one)
-        Mode::Content => vec![Ev::ConsumeOk(1, 0), Ev::ConsumeOk(1, 1), Ev::ConsumeOk(2, 0), Ev::CliListenReturns(1), Ev::CliListenReturns(1), Ev::CliListenReturns(2)],
+        // ... and a confirm listener on channel 1 has come and gone (with a confirmation for nobody)
+        Mode::Content => vec![Ev::ConsumeOk(1, 0), Ev::ConsumeOk(1, 1), Ev::ConsumeOk(2, 0), Ev::CliListenReturns(1), Ev::CliListenReturns(1), Ev::CliListenReturns(2), Ev::CliListenConfirms(1), Ev::CliDropConfirms(1), Ev::Ack(1, 1, false)],
         Mode::Violations => vec![Ev::ConsumeOk(1, 0), Ev::CliListenReturns(1)],
         Mode::Lifecycle => vec![],
         Mode::Listeners => vec![],
